@@ -54,6 +54,9 @@ def run(rep: Report, tier: str) -> None:
 	rule_j(rep)
 	rule_k(rep, idx)
 	rule_l(rep, idx)
+	# the cache is read in front of the parser's Errors.Syntax boundary: a file that exists must be a complete file (rule and reasoning in checks/c05.py)
+	from checks import c05
+	c05.rule_cache_file_complete(rep, idx, 'C07/cache-file-exists-only-when-complete')
 
 
 def _errors_classes(idx: SourceIndex) -> dict[str, object]:
